@@ -345,6 +345,13 @@ func (w *World) mint(k *Case) (tok string, ok bool) {
 				cl["step"] = map[string]any{"ssh": map[string]any{"certType": "host", "keyID": sub, "principals": []string{sub, "10.1.0.7"}}}
 			case "host-evil":
 				cl["step"] = map[string]any{"ssh": map[string]any{"certType": "host", "keyID": sub, "principals": []string{"evil.example.com"}}}
+			case "ra": // a registration-authority token: the provisioner is wrapped, authorization is the same
+				st, _ := cl["step"].(map[string]any)
+				if st == nil {
+					st = map[string]any{}
+				}
+				st["ra"] = map[string]any{"authorityId": "ra-1", "provisionerId": "p-1", "provisionerType": "JWK", "provisionerName": "remote"}
+				cl["step"] = st
 			case "empty":
 				cl["step"] = map[string]any{}
 			}
@@ -504,7 +511,7 @@ func genMut(r *c.Rng, w *World, p *Prov, k *Case) Mut {
 		return Mut{K: "aud:raw", S: c.Pick(r, []string{"step-certificate-authority", "/step-certificate-authority#x5c/x5c", "", "https://", "://bad", "client-abc",
 			"https://" + toHostname(w.hosts[0]) + "/1.0/renew", "https://" + toHostname(w.hosts[0]) + "/sign", "https://" + toHostname(w.hosts[0]) + "/1.0/sign/", "jwk2:" + w.minter("jwk2").Kid})}
 	case 6:
-		return Mut{K: "aud:add", I: r.Intn(2), S: c.Pick(r, []string{"https://other-ca.test/1.0/sign", audURL(w.hosts[0], c.Pick(r, ops), ""), audURL(w.hosts[0], "sign", c.Pick(r, ids)), "client-abc", "x"})}
+		return Mut{K: "aud:add", I: r.Intn(2), S: c.Pick(r, []string{"https://other-ca.test/1.0/sign", audURL(w.hosts[0], c.Pick(r, ops), ""), audURL(w.hosts[0], "sign", c.Pick(r, ids)), "client-abc", "client-def", "x"})}
 	case 7, 8:
 		return Mut{K: "aud:frag", S: c.Pick(r, ids)}
 	case 9:
@@ -524,13 +531,13 @@ func genMut(r *c.Rng, w *World, p *Prov, k *Case) Mut {
 	case 15:
 		return Mut{K: "iss", S: c.Pick(r, append(names, "", "\x00del", "kubernetes/serviceaccount", "https://accounts.example.com"))}
 	case 16:
-		return Mut{K: "claim", S: c.Pick(r, []string{"azp=client-abc", "azp=other", "azp=jwk2:" + w.minter("jwk2").Kid, "tid=client-abc", "tid=t", "email=admin@example.com",
+		return Mut{K: "claim", S: c.Pick(r, []string{"azp=client-abc", "azp=other", "azp=jwk2:" + w.minter("jwk2").Kid, "tid=client-abc", "tid=t", "azp=client-def", "email=admin@example.com",
 			"email=ADMIN@EXAMPLE.COM", "email=x@evil.test", "email=", "azp=acme/acme"}), I: 0}
 	case 17:
 		if r.Chance(1, 3) {
 			return Mut{K: "sans", S: c.Pick(r, []string{"del", "ip", "evil.example.com", "10.9.9.9"})}
 		}
-		return Mut{K: "step", S: c.Pick(r, []string{"del", "badtype", "add", "empty", "host-ip", "host-evil"})}
+		return Mut{K: "step", S: c.Pick(r, []string{"del", "badtype", "add", "empty", "host-ip", "host-evil", "ra", "ra"})}
 	case 18:
 		if p.Ty == "x5c" {
 			return Mut{K: "x5c", S: c.Pick(r, []string{"otherroot", "caleaf", "selfsigned", "nodigsig", "serverauth", "expiredleaf"})}
@@ -601,7 +608,18 @@ func corner(worlds []*World) []*Case {
 	}
 	for wi, w := range worlds {
 		for _, p := range w.minters {
-			for _, a := range ops {
+			mintFor := ops
+			if wi > 0 { // beyond the first authority: tokens minted for the credential's own operations only
+				mintFor = nil
+				seen := map[string]bool{}
+				for _, a := range natural[p.Ty] {
+					if !seen[a] {
+						seen[a] = true
+						mintFor = append(mintFor, a)
+					}
+				}
+			}
+			for _, a := range mintFor {
 				for _, b := range ops {
 					out = append(out, &Case{W: wi, M: p.Name, TokOp: a, Op: b})
 				}
@@ -650,6 +668,20 @@ func corner(worlds []*World) []*Case {
 				for _, op := range []string{"sign", "revoke"} {
 					out = append(out, &Case{W: wi, M: m, TokOp: op, Op: op, Muts: []Mut{{K: "sans", S: v}}})
 				}
+			}
+		}
+		// one identity provider, two client ids: a token for one presented with the other's audience / azp
+		for _, m := range []string{"oidc", "oidc2"} {
+			for _, other := range []string{"client-abc", "client-def"} {
+				out = append(out, &Case{W: wi, M: m, TokOp: "sign", Op: "sign", Muts: []Mut{{K: "aud:raw", S: other}}})
+				out = append(out, &Case{W: wi, M: m, TokOp: "sign", Op: "sign", Muts: []Mut{{K: "aud:add", I: 1, S: other}}})
+				out = append(out, &Case{W: wi, M: m, TokOp: "sign", Op: "sign", Muts: []Mut{{K: "aud:add", I: 0, S: other}}})
+				out = append(out, &Case{W: wi, M: m, TokOp: "sign", Op: "sign", Muts: []Mut{{K: "claim", S: "azp=" + other}}})
+			}
+		}
+		for _, m := range []string{"jwk", "x5c"} {
+			for _, op := range []string{"sign", "sshsign", "revoke"} {
+				out = append(out, &Case{W: wi, M: m, TokOp: op, Op: op, Muts: []Mut{{K: "step", S: "ra"}}})
 			}
 		}
 		for _, v := range []string{"add", "badtype", "host-ip", "host-evil", "empty"} {
